@@ -14,6 +14,11 @@ CATS = {"tensor": opcat_tensor.REG, "nn": opcat_nn.REG}
 def enumerate_specs(tier):
     specs = [{"sequence": ["float64", "float32"]}, {"sequence": ["float32", "float64"]},
              {"sequence": ["float64", "float32", "float64"]}]
+    for nm in GRAD_HISTORIES:
+        for dt in ("float32", "float64"):
+            for g1 in ("float32", "float64"):
+                for g2 in ("float32", "float64"):
+                    specs.append({"gradhistory": {"name": nm, "dt": dt, "g1": g1, "g2": g2}})
     for cname, reg in CATS.items():
         for name, od in reg.items():
             if "C10" not in od.props:
@@ -64,7 +69,85 @@ class Sequence:
         return out
 
 
+class GradHistory:
+    """dtype / shape of .grad over short histories of backward calls: a leaf used as root, accumulation into an existing
+    gradient, a retained root differentiated twice, the default seed, resets - with upstream gradients of either floating type"""
+    prop = PROP
+
+    def __init__(self, spec):
+        self.spec = spec
+        self.sig = "gradhistory:%(name)s:%(dt)s:%(g1)s:%(g2)s" % spec
+
+    def run(self, env):
+        from ..harness import T
+        from ..symnum import engine as E
+        import numpy as np
+        Tn = T()
+        out = E.Outcome()
+        sp = self.spec
+        dt, g1, g2 = np.dtype(sp["dt"]), np.dtype(sp["g1"]), np.dtype(sp["g2"])
+        other = np.dtype("float64" if sp["dt"] == "float32" else "float32")
+        x = Tn(env.arr("x", (2,), dt), requires_grad=True)
+        w = Tn(env.arr("w", (1, 2), other), requires_grad=True)       # a broadcast operand of the other floating type
+        watch = [("x", x), ("w", w)]
+
+        def seed(nm, shape, d):
+            return Tn(env.arr(nm, shape, d, lo=-2, hi=2))
+        name = sp["name"]
+        if name == "leaf_root_twice":
+            x.backward(seed("s1", (2,), g1))
+            x.backward(seed("s2", (2,), g2))
+        elif name == "accumulate":
+            (x * 2.0).backward(seed("s1", (2,), g1))
+            (x * 3.0).backward(seed("s2", (2,), g2))
+        elif name == "leaf_root_after_graph":
+            (x * 2.0).backward(seed("s1", (2,), g1))
+            x.backward(seed("s2", (2,), g2))
+        elif name == "mixed_operands":
+            (x * w).backward(seed("s1", (1, 2), g1))
+            (x + w).backward(seed("s2", (1, 2), g2))
+        elif name == "retained_root_twice":
+            y = x * 2.0
+            y.retain_grad()
+            y.backward(seed("s1", (2,), g1))
+            y.backward(seed("s2", (2,), g2))
+            watch.append(("y", y))
+        elif name == "default_seed":
+            (x * 2.0).sum().backward()
+            z = (x * x).mean()
+            z.backward()
+            r = x[0]
+            r.backward()
+        elif name == "reset_between":
+            (x * 2.0).backward(seed("s1", (2,), g1))
+            x.zero_()
+            x.backward(seed("s2", (2,), g2))
+        elif name == "interior_then_root":
+            y = x * 2.0
+            z = y.exp()
+            z.backward(seed("s1", (2,), g1))
+            y.backward(seed("s2", (2,), g2))
+        for nm, t in watch:
+            gr = t._grad
+            if gr is None:
+                if nm == "w" and name != "mixed_operands":
+                    continue
+                out.fact("%s has a gradient" % nm, False, "no .grad after the history")
+                continue
+            out.fact("grad(%s) keeps dtype and shape over the history" % nm,
+                     str(gr.dtype) == str(t.dtype) and tuple(gr.shape) == tuple(t.shape),
+                     ".grad dtype %s shape %s for a %s tensor of shape %s (history %s, upstream gradients %s then %s)" % (
+                         gr.dtype, tuple(gr.shape), t.dtype, tuple(t.shape), name, g1, g2))
+        return out
+
+
+GRAD_HISTORIES = ["leaf_root_twice", "accumulate", "leaf_root_after_graph", "mixed_operands", "retained_root_twice",
+                  "default_seed", "reset_between", "interior_then_root"]
+
+
 def build(spec):
+    if "gradhistory" in spec:
+        return GradHistory(spec["gradhistory"])
     if "sequence" in spec:
         return Sequence(spec["sequence"])
     return OpCase(PROP, CATS[spec["cat"]][spec["op"]], spec["args"], spec.get("variant"))
